@@ -42,6 +42,8 @@ func main() {
 			genConvergeAmbient(seed, n, os.Args[5])
 		case "converge-sweep":
 			genConvergeSweep(n, os.Args[5])
+		case "converge-locality":
+			genConvergeLocality(seed, n, os.Args[5])
 		default:
 			os.Exit(2)
 		}
